@@ -262,6 +262,22 @@ theorem C09_alias_and : litInfo genTables Gen.T_KW_AND = litInfo genTables Gen.T
 theorem C09_alias_or : litInfo genTables Gen.T_KW_OR = litInfo genTables Gen.T_BOOL_OR := by decide +kernel
 theorem C09_alias_not : litInfo genTables Gen.T_KW_NOT = litInfo genTables Gen.T_EXCLAM := by decide +kernel
 
+/-- the grammar contexts of a token: every occurrence in ANY production of parser.y (regenerated), as
+    `LHS: alternative with the occurrence written @` -/
+def aliasCtx (t : TokId) : List String := ((Gen.aliasContexts.find? (fun p => p.1 == t)).map (·.2)).getD []
+
+/-- the one grammar context in which `!` is not the negation operator: the send half of a synchronisation (`c!`);
+    hand-written, independent of the generated table -/
+def bangIsSend (c : String) : Bool := c.startsWith "SyncExpr: "
+
+/-- **Aliases, whole grammar.**  Outside `Expression` too (query forms such as `A[] (p and A<> q)`), a keyword alias and its
+    symbolic twin occur in exactly the same productions at the same positions with the same actions -- so replacing one by
+    the other cannot change which production fires anywhere in the grammar. -/
+theorem C09_alias_contexts :
+    aliasCtx Gen.T_KW_AND = aliasCtx Gen.T_BOOL_AND ∧ aliasCtx Gen.T_KW_OR = aliasCtx Gen.T_BOOL_OR ∧
+    aliasCtx Gen.T_KW_NOT = (aliasCtx Gen.T_EXCLAM).filter (fun c => !bangIsSend c) ∧
+    aliasCtx Gen.T_KW_AND ≠ [] ∧ aliasCtx Gen.T_KW_OR ≠ [] ∧ aliasCtx Gen.T_KW_NOT ≠ [] := by decide +kernel
+
 /-- `:=` and `=` are the same token already in the lexer -/
 theorem C09_alias_assign :
     lex (genCfg maskNew (fun _ _ => false)) [58, 61] = lex (genCfg maskNew (fun _ _ => false)) [61] ∧
